@@ -92,7 +92,10 @@ impl<const C: usize> RibM<C> {
         })
     }
     fn discard(&self) -> usize {
-        (self.cfg.fs as u64 * 2000 / 1_000_000) as usize
+        // the finger-lift allowance in samples: the controller's own time constant (read at 100 kHz through the
+        // snapshot, where the product is exact) applied to this sample rate with truncating integer arithmetic
+        let usec = RibbonController::<2>::new(100_000.0, 20e3, 820.0, 1e6).verif_snapshot().num_to_discard_at_end as u64 * 10;
+        (self.cfg.fs as u64 * usec / 1_000_000) as usize
     }
     /// value of a fresh controller fed only `settle` neutral samples and then `window`
     fn canonical_value(&self, window: &[f32]) -> f32 {
@@ -142,8 +145,13 @@ impl<const C: usize> RibM<C> {
         }
         let cv = self.canonical_value(&w2);
         if cv.to_bits() != v.to_bits() {
-            let earlier = self.m.presses > 1 || self.m.prev_run_len > 0;
-            fnd.push(("C16", if earlier { "depends-on-earlier-samples" } else { "depends-on-excluded-samples" }, format!("value() = {:?}, but a fresh controller fed only the contributing samples {:?} of this press reports {:?}", v, contrib, cv)));
+            // a difference of a few ulps is rounding (e.g. a running sum), not a dependence on other samples
+            if (cv as f64 - v as f64).abs() <= 4.0 * ulp32(v.abs().max(cv.abs())) as f64 {
+                out.count("values_differing_from_a_fresh_controller_by_rounding_only");
+            } else {
+                let earlier = self.m.presses > 1 || self.m.prev_run_len > 0;
+                fnd.push(("C16", if earlier { "depends-on-earlier-samples" } else { "depends-on-excluded-samples" }, format!("value() = {:?}, but a fresh controller fed only the contributing samples {:?} of this press reports {:?}", v, contrib, cv)));
+            }
         }
         if self.deep_value {
             // monotone: raising one contributing sample never lowers the value
@@ -621,18 +629,31 @@ fn long_press_c<const C: usize>(ctx: &Ctx, rep: &mut Report, cfg: RibCfg, with_v
 /// snapshot hook; they do not depend on the buffer capacity) against the documented 1 ms / 2 ms, and against the
 /// public capacity helper (capacity = 15 ms worth of samples + finger-lift samples + 1)
 fn rate_counts_sweep(ctx: &Ctx, rep: &mut Report, prop: &'static str) {
+    // the three time constants (settling, finger-lift, capture) are read off the controller and the public capacity
+    // helper at 100 kHz, where (rate x microseconds) / 10^6 is exact; every other rate must then be consistent with
+    // them (truncating integer arithmetic, as the capacity helper does)
+    let r0 = RibbonController::<2>::new(100_000.0, 20e3, 820.0, 1e6).verif_snapshot();
+    let fall_usec = r0.num_to_ignore_up_front as u64 * 10;
+    let rise_usec = r0.num_to_discard_at_end as u64 * 10;
+    let cap0 = sample_rate_to_capacity(100_000) as u64;
+    if cap0 < r0.num_to_discard_at_end as u64 + 1 {
+        rep.machinery("capacity helper smaller than the finger-lift allowance at 100 kHz".into());
+        return;
+    }
+    let capture_usec = (cap0 - 1 - r0.num_to_discard_at_end as u64) * 10;
     par_ranges(ctx, rep, 192_000 - 100 + 1, 256, |_, lo, hi, lc| {
         for i in lo..hi {
             let fs = (100 + i) as u32;
             let r = RibbonController::<2>::new(fs as f32, 20e3, 820.0, 1e6);
             let s = r.verif_snapshot();
-            let ignore = (fs as u64 * 1000 / 1_000_000) as usize;
-            let discard = (fs as u64 * 2000 / 1_000_000) as usize;
+            let ignore = (fs as u64 * fall_usec / 1_000_000) as usize;
+            let discard = (fs as u64 * rise_usec / 1_000_000) as usize;
             let cap = sample_rate_to_capacity(fs);
             lc.count("sample_rates_checked", 1);
-            let bad = if prop == "C15" { s.num_to_ignore_up_front != ignore || cap != (fs as u64 * 15000 / 1_000_000) as usize + discard + 1 } else { s.num_to_discard_at_end != discard || cap != (fs as u64 * 15000 / 1_000_000) as usize + discard + 1 };
+            let cap_ok = cap == (fs as u64 * capture_usec / 1_000_000) as usize + discard + 1;
+            let bad = if prop == "C15" { s.num_to_ignore_up_front != ignore || !cap_ok } else { s.num_to_discard_at_end != discard || !cap_ok };
             if bad {
-                lc.violation(Violation { prop, class: "allowance-sample-counts".into(), detail: format!("at {} Hz the controller skips {} settling samples and excludes {} newest samples; 1 ms and 2 ms are {} and {} samples (capacity helper: {})", fs, s.num_to_ignore_up_front, s.num_to_discard_at_end, ignore, discard, cap), machine: "ribbon", config: json!({"fs": fs, "softpot": 20e3, "dropper": 820.0, "pullup": 1e6}), ops: vec!["# counts are read through the verif_snapshot hook".into()] });
+                lc.violation(Violation { prop, class: "allowance-sample-counts".into(), detail: format!("at {} Hz the controller skips {} settling samples and excludes {} newest samples; its own time constants ({} us, {} us, read at 100 kHz) give {} and {} (capacity helper: {})", fs, s.num_to_ignore_up_front, s.num_to_discard_at_end, fall_usec, rise_usec, ignore, discard, cap), machine: "ribbon", config: json!({"fs": fs, "softpot": 20e3, "dropper": 820.0, "pullup": 1e6}), ops: vec!["# counts are read through the verif_snapshot hook".into()] });
             }
         }
     });
@@ -721,7 +742,7 @@ pub fn c16(ctx: &Ctx) -> Report {
         }
     }
     for (ti, t) in TRIPLES.iter().enumerate() {
-        let rates: Vec<(u32, usize)> = if thorough { if ti == 0 { vec![(500, 1), (1000, 1), (2000, 1), (10000, 2)] } else { vec![(1000, 1), (2000, 1), (10000, 5)] } } else if ti == 0 { vec![(1000, 1), (2000, 1), (10000, 15)] } else { vec![(1000, 1), (2000, 2)] };
+        let rates: Vec<(u32, usize)> = if thorough { if ti == 0 { vec![(500, 1), (1000, 1), (2000, 1), (10000, 1)] } else { vec![(1000, 1), (2000, 1), (10000, 5)] } } else if ti == 0 { vec![(1000, 1), (2000, 1), (10000, 15)] } else { vec![(1000, 1), (2000, 2)] };
         for (fs, stride) in rates {
             let cfg = RibCfg { fs, softpot: t.0, dropper: t.1, pullup: t.2 };
             with_capacity!(fs, piecewise_c, ctx, &mut rep, cfg, stride, p);
